@@ -11,6 +11,9 @@ import concurrent.futures as cf
 from lib import vlib
 
 ASSUMPTIONS = [
+    "thorough tier only: 8 shards of the hooked random workload are also executed inside the Miri interpreter (same "
+    "oracle); an undefined-behaviour report with a frame in /repo is a violation, one entirely inside third-party crates "
+    "or std is recorded as inconclusive; Miri cases are not added to `evaluations`",
     "the test Body hands out exactly the scripted frames (its byte/poll counters are part of the evidence)",
     "the oracle's reading of the Content-Length text: plain decimal digits are a number; a leading '+', list "
     "syntax, surrounding blanks, values that do not fit a machine word and disagreeing duplicates are "
@@ -111,7 +114,17 @@ def run(ctx):
         ctx.inconc("the networked part produced no summary", None)
     default_limit = hook[0].get("random", {}).get("default_limit_bytes")
     net_threads = net[0].get("net", {}).get("client_threads") if net else None
+    miri = None
+    if not ctx.quick:
+        # sanitizer supplement: the hooked part (scripted frame sequences into the real `_extract_with_limit`) inside Miri
+        n = 8
+        sets = [["--seed", ctx.seed, "--tier", tier, "--mode", "hook", "--shard", "%d/%d" % (i + 1, n + 1), "--budget-s", 150]
+                for i in range(n)]
+        _, miri = vlib.run_under_miri(ctx, "bodyx", "bodylimit", sets, 1500, "C14 buffered body, hooked part",
+                                      ["--seed", ctx.seed, "--tier", tier, "--mode", "hook", "--shard", "1/2", "--budget-s", 0.01])
     cov = _merge(summaries)
+    if miri:
+        cov["miri_supplement"] = miri
     cov.setdefault("random", {})["default_limit_bytes"] = default_limit
     if net_threads is not None:
         cov["net"].pop("client_threads", None)
